@@ -233,10 +233,27 @@ def run_creator(case: dict) -> dict:
 
     creator = creator_specs()[case["creator"]]()
     eng = case["engine"]
+    if case.get("prerender"):
+        # the SAME creator object is first rendered for every other dialect (as a user inspecting its SQL would do): what it
+        # then produces for this engine must not remember any of them
+        for d in ("spark", "postgres", "athena", "duckdb", "sqlite"):
+            if d != eng:
+                try:
+                    creator.get_comparison(d)
+                except Exception:  # noqa: BLE001  a dialect may refuse the creator
+                    pass
     try:
         comparison = creator.get_comparison(eng)
         levels = [l.sql_condition for l in comparison.comparison_levels]
     except Exception as e:  # noqa: BLE001  the dialect refuses the creator: a loud "not supported", recorded as such
+        if case.get("prerender"):
+            try:
+                creator_specs()[case["creator"]]().get_comparison(eng)
+            except Exception:  # noqa: BLE001  a fresh object is refused as well: the dialect's own refusal
+                pass
+            else:
+                # refused only after having been rendered for other dialects: the real code's failure, not a "not supported"
+                raise
         return {"rejected": f"{type(e).__name__}: {str(e)[:200]}"}
     api = impl.make_api(eng, threads=2)
     rows = list(GRID)
@@ -897,6 +914,7 @@ def run(ctx: core.Ctx):
         corpus = [(c["family"], c["case"]) for c in graphs.load_corpus(PROP)]
         scenarios = scenarios_for(ctx, ctx.rng, 10)
         scenarios += [("creator", {"creator": name, "shuffle": ctx.rng.randrange(1 << 30)}) for name in specs if name not in CORPUS_ONLY_CREATORS]
+        scenarios += [("creator", {"creator": name, "shuffle": ctx.rng.randrange(1 << 30), "prerender": True}) for name in specs if name not in CORPUS_ONLY_CREATORS]
     problems = evaluate(ctx, corpus + scenarios, engines)
     if (not ctx.lean.ok) and not ctx.replay:
         ctx.notes.append("a proof or the dialect translation broke: ran the widened failing-input search")
